@@ -20,6 +20,8 @@ func main() {
 		cmdVC(os.Args[2:])
 	case "check":
 		os.Exit(cmdCheck(os.Args[2:]))
+	case "locals":
+		os.Exit(cmdLocals(os.Args[2:]))
 	case "replay":
 		os.Exit(cmdReplay(os.Args[2:]))
 	case "list":
@@ -151,6 +153,56 @@ func cmdReplay(args []string) int {
 	if strings.Contains(txt, "VIOLATION") || strings.Contains(txt, "GOVC-REPLAY panic") || strings.Contains(txt, "GOVC-REPLAY violated") || strings.Contains(txt, rec.Failure.Class+"\"") {
 		fmt.Printf("VIOLATION property=%s replay=%s\n", rec.Property, args[0])
 		return 1
+	}
+	return 0
+}
+
+// locals: (re)write the `locals` clause of every function contract that has loop
+// invariants, from the current code. Run when a contract is written or updated.
+func cmdLocals(args []string) int {
+	e := NewEngine("/repo", "/verif/.work/locals")
+	if err := e.Load("./..."); err != nil {
+		fmt.Println(err)
+		return 2
+	}
+	if err := e.LoadContracts("/verif/stdlib_contracts"); err != nil {
+		fmt.Println(err)
+		return 2
+	}
+	byFile := map[string][]*FuncContract{}
+	for _, c := range e.cs.Funcs {
+		if c.Trusted || len(c.Loops) == 0 {
+			continue
+		}
+		byFile[c.File] = append(byFile[c.File], c)
+	}
+	for file, cons := range byFile {
+		data, err := os.ReadFile(file)
+		if err != nil {
+			continue
+		}
+		lines := strings.Split(string(data), "\n")
+		var out []string
+		for i := 0; i < len(lines); i++ {
+			ln := lines[i]
+			t := strings.TrimSpace(ln)
+			if strings.HasPrefix(t, "//@") && strings.HasPrefix(strings.TrimSpace(strings.TrimPrefix(t, "//@")), "locals ") {
+				continue // dropped; re-added below
+			}
+			out = append(out, ln)
+			if strings.HasPrefix(t, "//@ func ") {
+				for _, c := range cons {
+					key, _, _, err := parseFuncSig(strings.TrimSpace(strings.TrimPrefix(t, "//@ func ")), c.Pkg)
+					if err == nil && key == c.Key {
+						if fn := e.lookupFunc(c.Key); fn != nil {
+							out = append(out, "//@   locals "+strings.Join(namedLocals(fn), " "))
+						}
+					}
+				}
+			}
+		}
+		os.WriteFile(file, []byte(strings.Join(out, "\n")), 0644)
+		fmt.Println("updated", file)
 	}
 	return 0
 }
